@@ -16,7 +16,7 @@ class C17(Prop):
     level_note = 'Trusted: Lean kernel + standard axioms; provider generators are application code; transport.close() may raise (scripted); virtual clock.'
     design_ref = '§5 C17'
     rule = ('cause of the previous connection\'s end (server EOF, transport error, keepalive timeout, healthy) x pending request-responses/streams/channels with a live local publisher at that moment x 1..4 consecutive '
-            'reconnects x provider/connect suspensions x close() of the old transport raising ConnectionResetError or not x a link that had stopped draining writes (requests still queued) or not; after each reconnect a request is issued and answered by the harness on the new transport and the clock is advanced by two '
+            'reconnects x provider/connect suspensions x reconnect() called by the harness or from inside on_close (which then returns, or stays suspended while the reconnect is carried out) x close() of the old transport raising ConnectionResetError or not x a link that had stopped draining writes (requests still queued) or not; after each reconnect a request is issued and answered by the harness on the new transport and the clock is advanced by two '
             'keep-alive periods; non-trivial = something was pending or the cause was a timeout; distinct = distinct case')
     assumptions = ['the transport provider yields a fresh transport for every reconnect']
 
@@ -27,7 +27,7 @@ class C17(Prop):
             k = rng.randint(1, 4)
             out.append({'rounds': [{'cause': rng.choice(['eof', 'error', 'timeout', 'healthy']), 'pending_rr': rng.randint(0, 2), 'pending_stream': rng.randint(0, 1),
                                     'early_request': rng.random() < 0.4, 'close_raises': rng.random() < 0.35, 'stalled': rng.random() < 0.25,
-                                    'pending_channel': rng.random() < 0.35} for _ in range(k)],
+                                    'pending_channel': rng.random() < 0.35, 'via_on_close': rng.choice([None, None, 'plain', 'suspend'])} for _ in range(k)],
                         'p': rng.randint(0, 2), 'c': rng.randint(0, 2)})
         return out
 
@@ -110,6 +110,11 @@ class C17(Prop):
                 pubs.append(p)
             await loop.settle()
             sent_before = len(t.sent)
+            # the application may ask for the reconnect from inside its on_close handler, and stay suspended there while it is carried out
+            via = r.get('via_on_close') if r['cause'] in ('eof', 'error') else None
+            if via:
+                R.reconnect_in_on_close = True
+                R.on_close_sleep_ms = 50 if via == 'suspend' else 0
             if r['cause'] == 'eof':
                 t.deliver(simnet.EOF_MARK)
                 await loop.settle()
@@ -120,7 +125,10 @@ class C17(Prop):
                 await loop.advance(2 * LIFE + 50)
             timeouts = len(R.timeouts)
             nconnects = R.log.count('C')
-            await c.reconnect()
+            if via:
+                R.reconnect_in_on_close = False
+            else:
+                await c.reconnect()
             for _ in range(200):
                 await asyncio.sleep(0)
                 if R.log.count('C') > nconnects:
@@ -203,7 +211,16 @@ class C17(Prop):
                 fails.append({'signature': 'request-after-reconnect-not-served:' + c['cause'], 'what': '%s: a request issued afterwards was not served' % ctx})
             if r['keepalives_in_2_periods'] < 1:
                 fails.append({'signature': 'keepalives-not-restarted:' + c['cause'], 'what': '%s: no KEEPALIVE within two periods on the new connection' % ctx})
-        return fails
+        # known finding F19: once a reconnect has been requested from inside on_close, the clean-up of that earlier connection
+        # (_on_connection_closed -> _stop_tasks, still unwinding) can reset / cancel the tasks of a *later* connection. Failures in rounds
+        # that come after such a round get their own signatures, so that the same symptoms in any other history are still reported.
+        out = []
+        for f in fails:
+            k = int(f['what'].split(' ')[1]) - 1 if f['what'].startswith('reconnect ') else None
+            if k is not None and any(r.get('via_on_close') and r['cause'] in ('eof', 'error') for r in case['rounds'][:k]):
+                f = dict(f, signature='after-earlier-on_close-reconnect', what='%s [%s]' % (f['what'], f['signature']))
+            out.append(f)
+        return out
 
     def nontrivial(self, case, obs):
         if any(r['cause'] == 'timeout' or r['pending_rr'] or r['pending_stream'] or r.get('pending_channel') for r in case['rounds']):
